@@ -13,6 +13,7 @@ GroupSets ==
     <<[bad |-> FALSE, members |-> {[id |-> 1, drop |-> FALSE], [id |-> 2, drop |-> FALSE]}]>>,
     <<[bad |-> FALSE, members |-> {[id |-> 2, drop |-> FALSE]}], [bad |-> FALSE, members |-> {[id |-> 3, drop |-> TRUE]}]>>,
     <<[bad |-> FALSE, members |-> {[id |-> 1, drop |-> TRUE]}]>>,
+    <<[bad |-> FALSE, members |-> {[id |-> 2, drop |-> TRUE], [id |-> 3, drop |-> TRUE], [id |-> 4, drop |-> FALSE]}]>>,
     <<[bad |-> TRUE, members |-> {[id |-> 1, drop |-> FALSE], [id |-> 4, drop |-> FALSE]}], [bad |-> FALSE, members |-> {[id |-> 3, drop |-> FALSE]}]>>,
     <<[bad |-> FALSE, members |-> {[id |-> 1, drop |-> FALSE]}], [bad |-> FALSE, members |-> {[id |-> 1, drop |-> FALSE], [id |-> 3, drop |-> FALSE]}]>> }
 Updates == UNION {[S -> GroupSets] : S \in (SUBSET Jobs) \ {{}}}
